@@ -7,6 +7,7 @@ translator model `Gen` produces them; the text tie of C01 checks on every run th
 translator emits the same shapes), for ALL condition lists / element lists / states.
 -/
 import FaxVerif.Gen.FirstCorrect
+import FaxVerif.C04.Shapes
 namespace FaxVerif.C04
 open FaxVerif.Cpp FaxVerif.Linq FaxVerif.Gen
 variable {D : Type}
@@ -84,5 +85,111 @@ theorem first_idiom (C : Ctx D) (QC : QCtx D) (hN : QC.N = C.N)
     (∀ w rest, ws = w :: rest → ∃ s', execs C prog s = .ok s' ∧ s'.env col = some (.val w) ∧ s'.rows = s.rows ∧
         (∀ y, y ≠ col → ¬ Touch nm n (compChain B nm c (n + 1) K).next y → s'.env y = s.env y)) :=
   FaxVerif.Gen.first_idiom C QC hN B hB nm hinj hres c n col hcol hcolr msg cty l ws hcoll hfind hwt hmt hel s hx hfl hcd
+
+end FaxVerif.C04
+
+namespace FaxVerif.C04
+open FaxVerif.Cpp FaxVerif.Linq FaxVerif.Gen
+variable {D : Type}
+
+theorem env_set_self (σ : Env D) (r : String) (v : Val D) : (σ.set r v) r = some (.val v) := by
+  simp [Env.set]
+
+theorem unop_not (N : Num D) (v : Val D) (b : Bool) (h : asBool N v = some b) : unop N "!" v = .ok (.bool (!b)) := by
+  cases v <;> simp_all [unop]
+
+/-- shared core of the and / or lowering: after `preA; r = a;` the guard decides whether the second
+operand's statements run at all -/
+theorem guarded_second (C : Ctx D) (r : String) (preA body : List Stmt) (a g : CExpr)
+    (s s1 : St D) (va : Val D) (run : Bool)
+    (hA : execs C preA s = .ok s1) (hr : (s1.env r).isSome = true)
+    (ha : evalE C.N s1.env a = .ok va)
+    (hg : ∃ vg, evalE C.N (s1.env.set r va) g = .ok vg ∧ asBool C.N vg = some run) :
+    execs C (preA ++ [.set r a, .ite g body []]) s =
+      (if run then execs C body { s1 with env := s1.env.set r va }
+       else .ok { s1 with env := s1.env.set r va }) := by
+  obtain ⟨vg, hg1, hg2⟩ := hg
+  rw [execs_append, hA]
+  simp only [execs]
+  rw [exec_set_ok C s1 r a va hr ha]
+  simp only []
+  rw [exec_ite_of C { s1 with env := s1.env.set r va } g _ _ vg run hg1 hg2]
+  cases run
+  · simp [execs]
+  · simp only [if_true]
+    cases execs C body { s1 with env := s1.env.set r va } <;> rfl
+
+/-- **C04.or_lazy** — `a or b` inside an expression is lowered to `preA; r = a; if (!r) { body }`
+(`orShape`; `body` computes the second operand and assigns it to `r` — the assignment may sit
+inside a `First()` guard followed by its emptiness check). For ANY `body`: if the first operand is
+true it is not executed at all and `r` keeps the first operand; if it is false the outcome is
+exactly the outcome of running `body`, faults included.
+(`Count() == 0 or First() > c` never throws on an empty sequence.) -/
+theorem or_lazy (C : Ctx D) (r : String) (preA body : List Stmt) (a : CExpr)
+    (s s1 : St D) (va : Val D) (ba : Bool)
+    (hA : execs C preA s = .ok s1) (hr : (s1.env r).isSome = true)
+    (ha : evalE C.N s1.env a = .ok va) (hba : asBool C.N va = some ba) :
+    execs C (orShape r preA a body) s =
+      (if ba then .ok { s1 with env := s1.env.set r va }
+       else execs C body { s1 with env := s1.env.set r va }) := by
+  have hg : ∃ vg, evalE C.N (s1.env.set r va) (.un "!" (.var r)) = .ok vg ∧ asBool C.N vg = some (!ba) :=
+    ⟨.bool (!ba), by simp [evalE, env_set_self, unop_not C.N va ba hba], by simp [asBool]⟩
+  have := guarded_second C r preA body a (.un "!" (.var r)) s s1 va (!ba) hA hr ha hg
+  unfold orShape
+  rw [this]
+  cases ba <;> simp
+
+/-- **C04.and_lazy2** — the same for `a and b` inside an expression (`andShape`): the second
+operand's statements run only when the first operand is true. (`Count() > 0 and First() > c`.) -/
+theorem and_lazy2 (C : Ctx D) (r : String) (preA body : List Stmt) (a : CExpr)
+    (s s1 : St D) (va : Val D) (ba : Bool)
+    (hA : execs C preA s = .ok s1) (hr : (s1.env r).isSome = true)
+    (ha : evalE C.N s1.env a = .ok va) (hba : asBool C.N va = some ba) :
+    execs C (andShape r preA a body) s =
+      (if ba then execs C body { s1 with env := s1.env.set r va }
+       else .ok { s1 with env := s1.env.set r va }) := by
+  have hg : ∃ vg, evalE C.N (s1.env.set r va) (.var r) = .ok vg ∧ asBool C.N vg = some ba :=
+    ⟨va, by simp [evalE, env_set_self], hba⟩
+  unfold andShape
+  exact guarded_second C r preA body a (.var r) s s1 va ba hA hr ha hg
+
+/-- the first operand's fault is the fault of the whole lowering (nothing is swallowed) -/
+theorem first_operand_fault (C : Ctx D) (preA rest : List Stmt) (s : St D) (f : Fault)
+    (hA : execs C preA s = .error f) : execs C (preA ++ rest) s = .error f := by
+  rw [execs_append, hA]
+
+/-- **C04.ite_lazy** — `x if c else y` is lowered to `preC; if (c) { thn } else { els }`
+(`iteShape`; each arm computes its value and assigns the result variable): exactly one arm is
+executed — the one Python evaluates — whatever the other arm contains
+(`First().pt() if Count() > 0 else -1` never throws on an empty sequence). -/
+theorem ite_lazy (C : Ctx D) (preC thn els : List Stmt) (c : CExpr)
+    (s s1 : St D) (vc : Val D) (bc : Bool)
+    (hC : execs C preC s = .ok s1)
+    (hc : evalE C.N s1.env c = .ok vc) (hbc : asBool C.N vc = some bc) :
+    execs C (iteShape preC c thn els) s = execs C (if bc then thn else els) s1 := by
+  unfold iteShape
+  rw [execs_append, hC]
+  simp only [execs]
+  rw [exec_ite_of C s1 c _ _ vc bc hc hbc]
+  cases execs C (if bc then thn else els) s1 <;> rfl
+
+/-- an arm (or second operand) with a pure operand `e` just stores its value -/
+theorem arm_pure (C : Ctx D) (r : String) (e : CExpr) (s : St D) (v : Val D)
+    (hr : (s.env r).isSome = true) (he : evalE C.N s.env e = .ok v) :
+    execs C (thenSet [] r e) s = .ok { s with env := s.env.set r v } := by
+  simp only [thenSet, List.nil_append, execs, exec_set_ok C s r e v hr he]
+
+/-- non-vacuity: a throwing second operand behind a true first operand of `or` is not executed -/
+example (C : Ctx D) (s : St D) (hr : (s.env "r").isSome = true) :
+    execs C (orShape "r" [] (.bool true) (thenSet [.throw "First() called on an empty sequence"] "r" (.bool false))) s =
+      .ok { s with env := s.env.set "r" (.bool true) } := by
+  have := or_lazy C "r" [] (thenSet [.throw "First() called on an empty sequence"] "r" (.bool false)) (.bool true) s s (.bool true) true
+    (by simp [execs]) hr (by simp [evalE]) (by simp [asBool])
+  simpa using this
+
+/-- the recogniser finds the shapes it is meant to find -/
+example : countShapesL none (orShape "r" [] (.bool true) (thenSet [] "r" (.bool false))) = ⟨0, 1, 0⟩ := by decide
+example : countShapesL none (andShape "r" [] (.bool true) [.ite (.var "f") [.set "f" (.bool false), .set "r" (.var "x")] []]) = ⟨1, 0, 0⟩ := by decide
+example : countShapesL none (iteShape [] (.var "c") (thenSet [] "r" (.int 1)) (thenSet [] "r" (.int 2))) = ⟨0, 0, 1⟩ := by decide
 
 end FaxVerif.C04
